@@ -41,7 +41,7 @@ def main():
         out = runner._verify_one(a.key)
         for o in out["obligations"]:
             if o["status"] != "discharged":
-                print(o["status"], o["name"], o["sig"][-5:], json.dumps(o.get("cex"), default=str)[:600])
+                print(o["status"], o["name"], o["sig"][-5:], (o.get("extra") or {}).get("conjunct", ""), json.dumps(o.get("cex"), default=str)[:300])
         print(out["status"], out["message"], "paths", out["paths"], "obligations", len(out["obligations"]),
               "discharged", sum(1 for o in out["obligations"] if o["status"] == "discharged"), "secs", out["secs"])
         sys.exit(0)
